@@ -142,7 +142,8 @@ Lemma kfp_cases : forall w upath full lo acct ai chg wt net n,
      In top (ws_keys w) /\ create_chain X derive (ws_keys w) top lv cl = (ks1, r1) /\
      (ws_keys w' = ks1 \/
       exists parent hard idx id cnt ks2 r2,
-        In parent ks1 /\ create_bulk X derive ks1 parent hard idx id cnt cl = (ks2, r2) /\ ws_keys w' = ks2)).
+        In parent ks1 /\ create_bulk X derive ks1 parent hard idx id cnt cl = (ks2, r2) /\ ws_keys w' = ks2 /\
+        id = next_id X ks1 + 1)).
 Proof.
   intros w upath full lo acct ai chg wt net n. cbv zeta. unfold lib_keys_for_path.
   repeat des; simpl; split; auto;
@@ -156,7 +157,7 @@ Proof.
                  match goal with
                  | Hf : find_id _ _ _ = Some ?parent, Hb : create_bulk _ _ _ ?parent ?hard ?idx ?id ?cnt _ = (?ks2, ?r2) |- _ =>
                      exists parent, hard, idx, id, cnt, ks2, r2; split; [eapply find_id_in; eauto|]; split;
-                     [exact Hb | reflexivity]
+                     [exact Hb | split; reflexivity]
                  end ]).
 Qed.
 
@@ -170,7 +171,7 @@ Proof.
   destruct Hk as [E | [top [lv [cl [ks1 [r1 [Ht [Hcc Hk]]]]]]]].
   - rewrite E. exact HI.
   - destruct (create_chain_inv root lv _ top cl ks1 r1 HI Ht Hcc) as [HI1 _].
-    destruct Hk as [E | [parent [hard [idx [id [cnt [ks2 [r2 [Hp [Hb E]]]]]]]]]].
+    destruct Hk as [E | [parent [hard [idx [id [cnt [ks2 [r2 [Hp [Hb [E _]]]]]]]]]]].
     + rewrite E. exact HI1.
     + rewrite E. eapply create_bulk_inv; eauto.
 Qed.
@@ -266,6 +267,7 @@ Proof.
   - apply mark_used_inv; exact HI.
   - auto.
   - unfold lib_scan. apply scan_steps_inv; exact HI.
+  - unfold lib_account. repeat des; simpl; auto.
 Qed.
 
 Lemma run_inv : forall root ops w,
